@@ -867,9 +867,21 @@ class Ctx(object):
         v = None
         tot = 0.0
         hows = []
+        from . import ringnorm
+        fmls, ax = self.pc, []
         for zc in conjuncts:
             if len(conjuncts) > 1:
                 if z3.is_true(z3.simplify(zc)):
+                    continue
+            if z3.is_eq(zc) and zc.arg(0).sort() != z3.BoolSort() and self.ex.use_ring:
+                t_r = time.time()
+                ok = ringnorm.prove_equal(zc.arg(0), zc.arg(1), self.pc)
+                tot += time.time() - t_r
+                self.ex.ring_stats["tried"] += 1
+                if ok:
+                    self.ex.ring_stats["proved"] += 1
+                    hows.append("ring")
+                    v = Verdict("unsat", None, 0.0, "ring")
                     continue
             fmls = self.pc + [z3.Not(zc)]
             ax = theory.instantiate(fmls, self.ex.verdict_timeout_ms)
@@ -970,6 +982,8 @@ class Explorer(object):
         self.witnesses = {}
         self.dump_queries = dump_queries
         self.time_budget_s = time_budget_s
+        self.use_ring = True
+        self.ring_stats = {"tried": 0, "proved": 0}
 
     def run(self, harness):
         """harness(ctx) -> anything.  Exceptions raised by the code under test are
@@ -1033,6 +1047,7 @@ class Explorer(object):
             "unknown_feasibility": self.unknown_feasibility,
             "solver_time_s": round(sum(p.solver_time for p in self.paths), 3),
             "budget_exhausted": self.budget_exhausted,
+            "ring_tried": self.ring_stats["tried"], "ring_proved": self.ring_stats["proved"],
         }
 
     def failed(self):
